@@ -210,4 +210,58 @@ Section ListAlg.
       + cbn [PolySpec.seval]. rewrite (H O : a = b).
         rewrite (IH q x (fun j => H (S j))). reflexivity.
   Qed.
+
+  (* ---- supports, top coefficient, monomials ---- *)
+  Lemma smul_support : forall p q (m n : nat),
+    (forall k, (m <= k)%nat -> cf p k = c0) -> (forall k, (n <= k)%nat -> cf q k = c0) ->
+    forall k, (m + n <= S k)%nat -> cf (smul p q) k = c0.
+  Proof.
+    induction p as [|a p IH]; intros q m n Hm Hn k Hk.
+    - apply nth_nil.
+    - destruct m as [|m].
+      + apply nth_smul_zero_l. intro j. apply Hm. lia.
+      + rewrite nth_smul_cons. rewrite (Hn k) by lia.
+        destruct k; cbn [shiftc]. ring.
+        rewrite (IH q m n); try assumption. ring. intros j Hj. apply (Hm (S j)). lia. lia.
+  Qed.
+
+  Lemma smul_top : forall p q (m n : nat),
+    (forall k, (m < k)%nat -> cf p k = c0) -> (forall k, (n < k)%nat -> cf q k = c0) ->
+    cf (smul p q) (m + n) = cf p m ⊗ cf q n.
+  Proof.
+    induction p as [|a p IH]; intros q m n Hm Hn.
+    - rewrite !nth_nil. ring.
+    - rewrite nth_smul_cons. destruct m as [|m].
+      + cbn [Nat.add nth]. destruct n as [|n]; cbn [shiftc]. ring.
+        rewrite (nth_smul_zero_l p q). ring. intro j. apply (Hm (S j)). lia.
+      + rewrite (Hn (S m + n)%nat) by lia. cbn [Nat.add shiftc nth].
+        rewrite (IH q m n). ring. intros j Hj. apply (Hm (S j)). lia. exact Hn.
+  Qed.
+
+  Definition mono (k : nat) (q : C) : list C := repeat c0 k ++ [q].
+
+  Lemma nth_mono : forall k q j, cf (mono k q) j = if Nat.eqb j k then q else c0.
+  Proof.
+    intros k q j. unfold mono. destruct (Nat.eqb j k) eqn:E.
+    - apply Nat.eqb_eq in E. subst j. rewrite app_nth2; rewrite repeat_length. 2: lia.
+      rewrite Nat.sub_diag. reflexivity.
+    - apply Nat.eqb_neq in E. destruct (Nat.lt_ge_cases j k) as [L|L].
+      + rewrite app_nth1 by (rewrite repeat_length; exact L). apply nth_repeat.
+      + rewrite app_nth2 by (rewrite repeat_length; exact L). rewrite repeat_length.
+        destruct (j - k)%nat as [|[|d]] eqn:Ed. lia. reflexivity. reflexivity.
+  Qed.
+
+  Lemma nth_smul_sadd_r : forall p q r k,
+    cf (smul p (sadd q r)) k = cf (smul p q) k ⊕ cf (smul p r) k.
+  Proof.
+    intros. rewrite smul_comm, nth_smul_sadd_l, (smul_comm q p), (smul_comm r p). reflexivity.
+  Qed.
+
+  Lemma nth_smul_sneg_r : forall p q k, cf (smul p (sneg q)) k = copp (cf (smul p q) k).
+  Proof.
+    intros p q k. rewrite smul_comm. revert k. induction q as [|b q IH]; intro k.
+    - cbn [PolySpec.sneg map PolySpec.smul]. rewrite nth_smul_nil_r, nth_nil. ring.
+    - cbn [PolySpec.sneg map]. fold (sneg q). rewrite nth_smul_cons, nth_smul_cons_r.
+      destruct k; cbn [shiftc]. ring. rewrite IH. rewrite (smul_comm p q). ring.
+  Qed.
 End ListAlg.
